@@ -378,6 +378,10 @@ func (u *UnitsDefinition) updateReCache() error {
 	if u.MultipliersValue != nil {
 		for _, multiplier := range u.getSortedMultipliersCacheLocked() {
 			unit := u.MultipliersValue[multiplier]
+			if multiplier < 2 {
+				// 1 is the base unit (its group would shadow the base unit's and count it twice), less is not a unit.
+				return fmt.Errorf("invalid multiplier %d for unit %s", multiplier, unit.NameLongPlural())
+			}
 			parts = append(parts, fmt.Sprintf(
 				"(?:|(?P<g%s>[0-9]+)\\s*(%s|%s|%s|%s))",
 				regexp.QuoteMeta(fmt.Sprintf("%d", multiplier)),
